@@ -55,16 +55,83 @@ pub struct SessionCase {
     /// expected acceptance of each Parse step, in order
     pub expect: Vec<bool>,
     pub what: Vec<String>,
+    /// expected acceptance of the Parse steps of each PStep::Nested session among `steps`, in order
+    #[serde(default)]
+    pub nested_expect: Vec<Vec<bool>>,
+    #[serde(default)]
+    pub nested_what: Vec<Vec<String>>,
+}
+
+thread_local! {
+    /// the (non-nested, short) session cases evaluated on this thread since the last recent_sessions_take(): they are
+    /// recombined into nested pairs
+    static RECENT: std::cell::RefCell<Vec<SessionCase>> = const { std::cell::RefCell::new(Vec::new()) };
+}
+
+pub fn recent_sessions_take() -> Vec<SessionCase> {
+    RECENT.with(|s| std::mem::take(&mut *s.borrow_mut()))
+}
+
+fn session_cfg(c: &SessionCase) -> ParserCfg {
+    ParserCfg { footer: c.footer.clone(), assertion: c.ia.clone(), default_parser: c.default_parser, ..Default::default() }
+}
+
+/// Two parser objects alive at once: session B (created, configured, used, dropped) runs in the middle of session A on the
+/// same thread.  Both must answer exactly as they do alone - state that leaks between parser objects (a per-thread or
+/// static cache of keys, footers, expectations, clock readings ...) shows up as a deviation in either.
+pub fn nested_pairs(prop: &str, cases: &[SessionCase], n: usize, seed: u64, r: &mut Report) {
+    if cases.len() < 2 {
+        r.inconclusive.push(format!("{} nested sessions: fewer than two session cases to combine", prop));
+        return;
+    }
+    let mut rng = Rng::new(seed, "nested-pairs", prop.len() as u64 + cases.len() as u64);
+    for _ in 0..n {
+        let a = &cases[rng.below(cases.len())];
+        let b = &cases[rng.below(cases.len())];
+        if a.steps.len() > 64 || b.steps.len() > 64 || !a.nested_expect.is_empty() || !b.nested_expect.is_empty() {
+            continue;
+        }
+        let mut c = a.clone();
+        c.prop = prop.to_string();
+        // one or two insertions of B (the second one after A's last step: B then sees everything A did)
+        let pos = 1 + rng.below(a.steps.len().max(1));
+        let nested = PStep::Nested(Box::new(NestedSession { p: b.p, batteries: b.batteries, keys: b.keys.clone(), cfg: session_cfg(b), steps: b.steps.clone() }));
+        c.steps.insert(pos.min(c.steps.len()), nested.clone());
+        c.nested_expect.push(b.expect.clone());
+        c.nested_what.push(b.what.clone());
+        if rng.chance(1, 3) {
+            c.steps.insert(0, nested);
+            c.nested_expect.push(b.expect.clone());
+            c.nested_what.push(b.what.clone());
+        }
+        let before = r.violations_total;
+        session_eval(&c, r);
+        if r.violations_total == before {
+            r.count("nested parser pairs: both answer as alone");
+            r.distinct(format!("nested|{}|{}|{}|{}", a.p.name(), a.batteries, b.p.name(), b.batteries));
+        }
+    }
 }
 
 pub fn session_eval(c: &SessionCase, r: &mut Report) {
-    let cfg = ParserCfg { footer: c.footer.clone(), assertion: c.ia.clone(), default_parser: c.default_parser, ..Default::default() };
+    if c.nested_expect.is_empty() && c.steps.len() <= 64 {
+        RECENT.with(|s| {
+            let mut s = s.borrow_mut();
+            if s.len() < 400 {
+                s.push(c.clone());
+            }
+        });
+    }
+    let cfg = session_cfg(c);
+    let _ = nested_outs_take();
     let outs = session(c.p, c.batteries, &c.keys, &cfg, &c.steps);
+    let nested = nested_outs_take();
     let tag = format!("{}/{}", c.p.name(), if c.batteries { if c.default_parser { "batteries-default" } else { "batteries" } } else { "generic" });
-    if outs.len() != c.expect.len() {
-        r.inconclusive.push(format!("{} session on {}: {} outcomes for {} parses ({:?})", c.prop, tag, outs.len(), c.expect.len(), outs.first().map(|o| o.brief())));
+    if outs.len() != c.expect.len() || nested.len() != c.nested_expect.len() {
+        r.inconclusive.push(format!("{} session on {}: {} outcomes for {} parses, {} nested sessions for {} planned ({:?})", c.prop, tag, outs.len(), c.expect.len(), nested.len(), c.nested_expect.len(), outs.first().map(|o| o.brief())));
         return;
     }
+    let with_nested = if c.nested_expect.is_empty() { "" } else { " [another parser object was created and used in between on the same thread]" };
     for (i, (o, want)) in outs.iter().zip(&c.expect).enumerate() {
         r.evaluations += 1;
         let replay = json!({"cmd": format!("{}-session", c.prop), "case": c});
@@ -72,17 +139,36 @@ pub fn session_eval(c: &SessionCase, r: &mut Report) {
             (Out::Panic(loc), _) => r.violation(format!("{} panic {} session", c.prop, tag), format!("{} session parse #{} ({}): panic {}", tag, i + 1, c.what[i], loc), replay),
             (Out::Ok(_), false) => r.violation(
                 format!("{} session-accepts-what-a-fresh-parser-rejects {}", c.prop, tag),
-                format!("{}: ONE parser object, parse #{} ({}) was ACCEPTED; history: {:?}", tag, i + 1, c.what[i], &c.what[..=i]),
+                format!("{}: ONE parser object, parse #{} ({}) was ACCEPTED{}; history: {:?}", tag, i + 1, c.what[i], with_nested, &c.what[..=i]),
                 replay,
             ),
             (Out::Err(e), true) => r.violation(
                 format!("{} session-rejects-what-a-fresh-parser-accepts {} err={}", c.prop, tag, e),
-                format!("{}: ONE parser object, parse #{} ({}) was REJECTED with {}; history: {:?}", tag, i + 1, c.what[i], e, &c.what[..=i]),
+                format!("{}: ONE parser object, parse #{} ({}) was REJECTED with {}{}; history: {:?}", tag, i + 1, c.what[i], e, with_nested, &c.what[..=i]),
                 replay,
             ),
             _ => {
                 r.count(&format!("{} session parses as expected", tag));
                 r.distinct(format!("{}|session|{}|{}", tag, i, want));
+            }
+        }
+    }
+    for (k, (outs_b, want_b)) in nested.iter().zip(&c.nested_expect).enumerate() {
+        if outs_b.len() != want_b.len() {
+            r.inconclusive.push(format!("{} nested session #{} inside {}: {} outcomes for {} parses ({:?})", c.prop, k + 1, tag, outs_b.len(), want_b.len(), outs_b.first().map(|o| o.brief())));
+            continue;
+        }
+        for (i, (o, want)) in outs_b.iter().zip(want_b).enumerate() {
+            r.evaluations += 1;
+            if o.is_panic() || o.is_ok() != *want {
+                let what = c.nested_what.get(k).and_then(|w| w.get(i)).cloned().unwrap_or_default();
+                r.violation(
+                    format!("{} parser-used-inside-another-parsers-lifetime-deviates outer={} {}", c.prop, tag, if *want { "rejects-valid" } else { "accepts-invalid" }),
+                    format!("a second parser object created and used while a {} parser is alive on the same thread: its parse #{} ({}) gave {} - alone it answers the opposite", tag, i + 1, what, o.brief()),
+                    json!({"cmd": format!("{}-session", c.prop), "case": c}),
+                );
+            } else {
+                r.count("nested session parses as expected");
             }
         }
     }
@@ -141,6 +227,8 @@ pub fn c04_sessions(pools: &Pools, r: &mut Report) {
                 steps: plan.iter().map(|(t, k, _, _)| PStep::Parse { token: (*t).clone(), key: *k }).collect(),
                 expect: plan.iter().map(|x| x.2).collect(),
                 what: plan.iter().map(|x| x.3.to_string()).collect(),
+                nested_expect: vec![],
+                nested_what: vec![],
             };
             session_eval(&c, r);
         }
@@ -190,7 +278,7 @@ pub fn c04_long_sessions(pools: &Pools, seed: u64, thorough: bool, r: &mut Repor
                     }
                 }
             }
-            let c = SessionCase { prop: "C04".into(), p, batteries, default_parser: dp, keys: keys.clone(), footer: Some("ftr".into()), ia: if p.has_assertion() { Some("ia".into()) } else { None }, steps, expect, what };
+            let c = SessionCase { prop: "C04".into(), p, batteries, default_parser: dp, keys: keys.clone(), footer: Some("ftr".into()), ia: if p.has_assertion() { Some("ia".into()) } else { None }, steps, expect, what, nested_expect: vec![], nested_what: vec![] };
             // evaluate without the per-step bookkeeping of session_eval (thousands of steps): count, and report the first deviation
             let cfg = ParserCfg { footer: c.footer.clone(), assertion: c.ia.clone(), default_parser: dp, ..Default::default() };
             let outs = session(p, batteries, &c.keys, &cfg, &c.steps);
@@ -256,7 +344,7 @@ pub fn c05_sessions(pools: &Pools, r: &mut Report) {
             step(PStep::SetFooter("".into()), None, "");
             step(PStep::Parse { token: tn.clone(), key: 0 }, Some(true), "expectation cleared, footer-less token");
             step(PStep::Parse { token: tf.clone(), key: 0 }, Some(false), "expectation cleared, token with F");
-            let c = SessionCase { prop: "C05".into(), p, batteries, default_parser: dp, keys: vec![key.clone()], footer: None, ia: None, steps, expect, what };
+            let c = SessionCase { prop: "C05".into(), p, batteries, default_parser: dp, keys: vec![key.clone()], footer: None, ia: None, steps, expect, what, nested_expect: vec![], nested_what: vec![] };
             session_eval(&c, r);
         }
     }
@@ -298,7 +386,7 @@ pub fn c06_sessions(pools: &Pools, r: &mut Report) {
                 step(PStep::SetAssertion("assertion-A".into()), None, "");
                 step(PStep::Parse { token: tn.clone(), key: 0 }, Some(false), "assert A, token built without");
                 step(PStep::Parse { token: ta.clone(), key: 0 }, Some(true), "assert A, token built with A again");
-                let c = SessionCase { prop: "C06".into(), p, batteries, default_parser: dp, keys: vec![key.clone()], footer: footer.map(|s| s.to_string()), ia: None, steps, expect, what };
+                let c = SessionCase { prop: "C06".into(), p, batteries, default_parser: dp, keys: vec![key.clone()], footer: footer.map(|s| s.to_string()), ia: None, steps, expect, what, nested_expect: vec![], nested_what: vec![] };
                 session_eval(&c, r);
             }
         }
@@ -630,8 +718,12 @@ pub fn run_c04(tier: &str, seed: u64) -> Report {
     });
     total.merge(r);
     let mut rs = Report::new();
+    let _ = recent_sessions_take();
     c04_sessions(&pools, &mut rs);
+    let cases = recent_sessions_take();
+    nested_pairs("C04", &cases, if thorough { 2000 } else { 160 }, seed, &mut rs);
     c04_long_sessions(&pools, seed, thorough, &mut rs);
+    rs.require("nested parser pairs: both answer as alone", 60);
     total.merge(rs);
     for &p in &ALL {
         for l in LAYERS {
@@ -659,7 +751,7 @@ pub fn replay_c04(case: &Value) -> Report {
     r
 }
 
-pub const RULE_C04: &str = "per protocol 24 (thorough 1500) authentic tokens built at core/generic/batteries layer (footer none/text/empty, assertion none/text) are presented at the same layer under every single-bit neighbour of the key (all 256 bits of symmetric and Ed25519 public keys, all 392 bits of the compressed P-384 point, all bits of the RSA public-key DER), all-zero, all-one, 50 random (1500 for local tokens whose plaintext is 0-2 bytes, incl. the claim-less '{}' of the generic builder: garbage from an unauthenticated decryption is well-formed only when short), rotated/reversed/half-zeroed keys, every other pool key, and for v3.public the ECDSA 'duplicate-signature' keys recovered from the token's own signature over the specified digest and over five binding-free digest variants (the signer's key must be the only recovered key that is accepted); parser sessions incl. LONG ones (one parser object, 3000 (thorough 20000) parses of right-key / other-key / one-character-changed tokens in a seeded order); oracle: any Ok under another key is a violation (a key that fails to parse counts as 'fails'); distinct_nontrivial = distinct (protocol, layer, key class, rejection variant)";
+pub const RULE_C04: &str = "per protocol 24 (thorough 1500) authentic tokens built at core/generic/batteries layer (footer none/text/empty, assertion none/text) are presented at the same layer under every single-bit neighbour of the key (all 256 bits of symmetric and Ed25519 public keys, all 392 bits of the compressed P-384 point, all bits of the RSA public-key DER), all-zero, all-one, 50 random (1500 for local tokens whose plaintext is 0-2 bytes, incl. the claim-less '{}' of the generic builder: garbage from an unauthenticated decryption is well-formed only when short), rotated/reversed/half-zeroed keys, every other pool key, and for v3.public the ECDSA 'duplicate-signature' keys recovered from the token's own signature over the specified digest and over five binding-free digest variants (the signer's key must be the only recovered key that is accepted); NESTED parser pairs (160, thorough 2000: a second parser object of any protocol/layer is created, used and dropped in the middle of another parser's session on the same thread; both must answer as they do alone); parser sessions incl. LONG ones (one parser object, 3000 (thorough 20000) parses of right-key / other-key / one-character-changed tokens in a seeded order); oracle: any Ok under another key is a violation (a key that fails to parse counts as 'fails'); distinct_nontrivial = distinct (protocol, layer, key class, rejection variant)";
 
 // ==========================================================================================
 // C05
@@ -853,7 +945,11 @@ pub fn run_c05(tier: &str, seed: u64) -> Report {
     });
     total.merge(r);
     let mut rs = Report::new();
+    let _ = recent_sessions_take();
     c05_sessions(&pools, &mut rs);
+    let cases = recent_sessions_take();
+    nested_pairs("C05", &cases, if thorough { 2000 } else { 160 }, seed, &mut rs);
+    rs.require("nested parser pairs: both answer as alone", 60);
     builder_reuse("C05", &pools, &mut rs);
     builder_footer_changes(&pools, &mut rs);
     total.merge(rs);
@@ -884,7 +980,7 @@ pub fn replay_c05(case: &Value) -> Report {
     r
 }
 
-pub const RULE_C05: &str = "8 protocols x 3 layers x footer catalogue (none, empty, 40 strings + 20 (thorough 300) seeded random ones; incl. prefix/extension pairs, case and whitespace variants, NUL suffix, NFC/NFD, strings whose base64 differs in the last character, strings that are themselves base64 or contain dots): a token is built with each footer F through that layer's builder and presented to that layer's parser with every expected footer F' of the catalogue; oracle: accept iff F' == F with none == empty (string equality in the harness). Plus the footer segment of every produced token compared with the harness's own base64url encoder, and edits of the segment (removed, emptied, replaced with and without matching expectation, extended, truncated, raw text, added to a footer-less token). distinct_nontrivial = distinct (protocol, layer, built class, supplied class) for accepted pairs and (protocol, layer, case class, rejection variant) for rejected ones";
+pub const RULE_C05: &str = "8 protocols x 3 layers x footer catalogue (none, empty, 40 strings + 20 (thorough 300) seeded random ones; incl. prefix/extension pairs, case and whitespace variants, NUL suffix, NFC/NFD, strings whose base64 differs in the last character, strings that are themselves base64 or contain dots): a token is built with each footer F through that layer's builder and presented to that layer's parser with every expected footer F' of the catalogue; oracle: accept iff F' == F with none == empty (string equality in the harness). Plus parser sessions (the expected footer is changed between parses of one parser object) and 160 (thorough 2000) NESTED pairs of them (a second parser object is created, used and dropped in the middle of another one's session on the same thread; both must answer as alone). Plus the footer segment of every produced token compared with the harness's own base64url encoder, and edits of the segment (removed, emptied, replaced with and without matching expectation, extended, truncated, raw text, added to a footer-less token). distinct_nontrivial = distinct (protocol, layer, built class, supplied class) for accepted pairs and (protocol, layer, case class, rejection variant) for rejected ones";
 
 // ==========================================================================================
 // C06
@@ -1126,7 +1222,11 @@ pub fn run_c06(tier: &str, seed: u64) -> Report {
     }
     total.merge(r);
     let mut rs = Report::new();
+    let _ = recent_sessions_take();
     c06_sessions(&pools, &mut rs);
+    let cases = recent_sessions_take();
+    nested_pairs("C06", &cases, if thorough { 2000 } else { 160 }, seed, &mut rs);
+    rs.require("nested parser pairs: both answer as alone", 60);
     builder_reuse("C06", &pools, &mut rs);
     total.merge(rs);
     for &p in &protos {
@@ -1151,7 +1251,7 @@ pub fn replay_c06(case: &Value) -> Report {
     r
 }
 
-pub const RULE_C06: &str = "v3/v4 local/public x 3 layers x assertion catalogue (none, empty, 40 strings with near-miss pairs): a token is built with assertion A through that layer's builder and presented to that layer's parser with every A' of the catalogue; oracle: accept iff A' == A (none == empty). Plus: the assertion supplied as footer instead; for 60 (thorough 400) random assertions of >= 12 base64-alphabet characters per protocol with a FIXED nonce: token length equal for none / A / A', A (raw and base64url at the three byte alignments) absent from the token text and decoded payload, nonce||ciphertext identical across assertions (local), tokens differ across assertions; re-split attack (F,A)->(F',A') with F||A == F'||A' at six split points, and across a LENGTH PREFIX (F' = F || len(A) || A[..d-8], A' = A[d..] with A[d-8..d] = LE64(|A'|), d in {128, 256, 32768, 65536}, len(A) written as LE64(|A|) and as LE64(|A|-d): collides iff the PAE length encoding is not injective). distinct_nontrivial = distinct (protocol, layer, class, built class, supplied class)";
+pub const RULE_C06: &str = "v3/v4 local/public x 3 layers x assertion catalogue (none, empty, 40 strings with near-miss pairs): a token is built with assertion A through that layer's builder and presented to that layer's parser with every A' of the catalogue; oracle: accept iff A' == A (none == empty). Plus parser sessions (assertion changed between parses) and 160 (thorough 2000) NESTED pairs of them (two parser objects alive at once on one thread); the assertion supplied as footer instead; for 60 (thorough 400) random assertions of >= 12 base64-alphabet characters per protocol with a FIXED nonce: token length equal for none / A / A', A (raw and base64url at the three byte alignments) absent from the token text and decoded payload, nonce||ciphertext identical across assertions (local), tokens differ across assertions; re-split attack (F,A)->(F',A') with F||A == F'||A' at six split points, and across a LENGTH PREFIX (F' = F || len(A) || A[..d-8], A' = A[d..] with A[d-8..d] = LE64(|A'|), d in {128, 256, 32768, 65536}, len(A) written as LE64(|A|) and as LE64(|A|-d): collides iff the PAE length encoding is not injective). distinct_nontrivial = distinct (protocol, layer, class, built class, supplied class)";
 
 // ==========================================================================================
 // C07
